@@ -16,7 +16,8 @@ CLAIMED = {
        "Block Header flag bits map to the same fields, same field order and CRC range on both sides; the control bytes the LZMA2 "
        "encoder emits for its 8 flag combinations fall in the spec class with the same reset meaning, chunk sizes big-endian "
        "minus one (value-evaluated); provenance of Block sizes, Index/footer fields, check type, .lzma header. Conformance of "
-       "whole streams under an independent decoder is NOT decided. Also (BLKOPT) compressed_size/uncompressed_size of the in/out Block options are reset on every path to lzma_block_header_size() in each function that starts a Block.",
+       "whole streams under an independent decoder is NOT decided. Also (BLKOPT) compressed_size/uncompressed_size of the in/out Block options are reset on every path to lzma_block_header_size() in each function that starts a Block."
+       + " Further rules: (FALLBACK) the uncompressed-chunk fallback of the LZMA2 encoder is entered exactly on the documented condition and resets state afterwards.",
   technique="layout-fact extraction and comparison (encoder vs decoder vs spec), expression evaluation on sample values, finite-domain evaluation",
   ref="4/C02"),
  "C14": dict(
@@ -26,7 +27,8 @@ CLAIMED = {
        "CLMUL machine); the SHA-256 Sigma/sigma macro expansions (all 96+32 sites) are evaluated as GF(2)-linear maps on the 32 "
        "basis vectors, Ch/Maj by truth table; schedule indices, 16+3x16 round structure, big-endian load and length; dispatch "
        "wiring of CRC resolvers and check.c. The CLMUL data path and the slice-by-N loops as functions of all inputs are NOT "
-       "decided. Also (MASKW) no 64-bit size/address is ANDed with a mask complemented in 32 bits; (PATH) the alignment prologue of the generic CRCs cannot consume more than the size guard leaves, lzma_sha256_update recomputes the buffer offset per piece.",
+       "decided. Also (MASKW) no 64-bit size/address is ANDed with a mask complemented in 32 bits; (PATH) the alignment prologue of the generic CRCs cannot consume more than the size guard leaves, lzma_sha256_update recomputes the buffer offset per piece."
+       + " Further rules: SHA-256 padding: finite-domain evaluation of lzma_sha256_finish for all 64 residues: an extra block is processed iff the residue is >= 56.",
   technique="table comparison against independently computed definitions; GF(2)-linear and truth-table evaluation of macro-expanded expression trees",
   ref="4/C14"),
  "C01": dict(
@@ -41,7 +43,8 @@ CLAIMED = {
        "coders) over all array dimensions, state, reps and range coder, with the same initial value and mask formulas on "
        "both sides; (TAB) encoders[]/decoders[] list the same filter IDs and the property sizes written are the sizes "
        "accepted. NOT decided: LZ parsing, prices, range coder arithmetic, window arithmetic, chunk limits, output-size "
-       "limiting, dictionary wrap, and therefore losslessness for all inputs/configurations. Also (LZMA2) lzma_lzma_encoder_reset() is called in lzma2_encode exactly when need_state_reset is set, and the header writer derives and clears the same flags.",
+       "limiting, dictionary wrap, and therefore losslessness for all inputs/configurations. Also (LZMA2) lzma_lzma_encoder_reset() is called in lzma2_encode exactly when need_state_reset is set, and the header writer derives and clears the same flags."
+       + " Further rules: (ORDER) lzma_lzma_encode commits its position bookkeeping before the in-loop rc_encode() can suspend, and the LZMA2 history reserve is applied after the LZMA encoder filled in lz_options; (OUTPOS) rc_shift_low and rc_shift_low_dummy advance *out_pos in single steps, each behind `*out_pos == out_size`; the LZ/LZMA decoder dictionary sibling rule of C03.",
   technique="path-sensitive event-count dataflow on the CFG (exactly-once / must-precede); post-dominator must-follow; field-coverage (E-COVER) with loop-bound vs array-dimension comparison; who-may-write table; table agreement",
   ref="4/C01"),
  "C20": dict(
@@ -71,7 +74,8 @@ CLAIMED = {
        "alignment; (DELTA) the three delta loops index the history identically, store the right byte in the right order, "
        "props dist-1/+1; (PROTO) simple_code returns STREAM_END only at end of input, advances now_pos by the filtered "
        "count, releases the tail unfiltered at EOF. NOT decided: the round trip for all inputs and slicings as such, "
-       "RISC-V AUIPC pair arithmetic, IA-64 slot arithmetic, x86 prev_mask evolution as a function of all inputs. Detection predicates are evaluated by symbolic bit evaluation of the path conditions (independent of the statement shape). Also (INITCONS) now_pos / history are re-initialised on every init path.",
+       "RISC-V AUIPC pair arithmetic, IA-64 slot arithmetic, x86 prev_mask evolution as a function of all inputs. Detection predicates are evaluated by symbolic bit evaluation of the path conditions (independent of the statement shape). Also (INITCONS) now_pos / history are re-initialised on every init path."
+       + " Further rules: (READFIRST) delta history/pos and BCJ buffers a coding function reads first are reset by every OK init path; IA-64 slot predicate equals opcode 5 / btype 0 on all assignments of the relevant bits; call_filter on coder->buffer does not depend on end_was_reached.",
   technique="AST/CFG shape rule for direction symmetry; exhaustive finite-domain evaluation of branch predicates from the CFG; exact bit-routing abstract evaluation of shift/mask/or code vs reference tables; edge-cut must-pass",
   ref="4/C15"),
  "C19": dict(
@@ -102,7 +106,8 @@ CLAIMED = {
        "write and the trailing-input test; unlink/open who-may-call rules with folded O_CREAT|O_EXCL/0600 constants and the "
        "dev/inode comparison; signal handlers' async-signal-safety closure and sig_atomic_t writes, block/unblock pairing, "
        "signals_exit last; every failure return of the I/O layer sets the exit status (known finding: EPIPE branch of "
-       "io_write_buf). File-system state after kill -9 is NOT decided. Also (RESULT) no bool result of an xz I/O helper is discarded; (PERFILE) file-scope state that coder_init sets conditionally is reset for every file; (EXIT) E_ERROR is sticky in set_exit_status.",
+       "io_write_buf). File-system state after kill -9 is NOT decided. Also (RESULT) no bool result of an xz I/O helper is discarded; (PERFILE) file-scope state that coder_init sets conditionally is reset for every file; (EXIT) E_ERROR is sticky in set_exit_status."
+       + " Further rules: every probe result (is_tty, stat) that decides skipping a file is tested.",
   technique="finite-domain path-sensitive dataflow, must-pass/dominance rules, call-graph closure, who-may-call",
   ref="4/C17"),
  "C12": dict(
@@ -122,7 +127,8 @@ CLAIMED = {
        "LZMA_MEMLIMIT_ERROR is returned only in the restartable state; the seven memconfig functions write both outputs on "
        "every successful path and store a new limit only after the non-zero and not-below-usage tests; inits store max(1, "
        "limit); filter tables' memusage column; xz returns from coder_set_compression_settings only with usage <= limit or via "
-       "the documented soft-limit escape. That estimates bound real allocations is NOT decided. Also (TERMS) the threaded decoder's admission test, cache-trimming tests and memusage report contain every accounting counter they are documented to contain; the file-info decoder passes memlimit minus the memory of the Indexes decoded so far; xz's single-threaded fallback calls hardware_threads_set(1) before re-estimating.",
+       "the documented soft-limit escape. That estimates bound real allocations is NOT decided. Also (TERMS) the threaded decoder's admission test, cache-trimming tests and memusage report contain every accounting counter they are documented to contain; the file-info decoder passes memlimit minus the memory of the Indexes decoded so far; xz's single-threaded fallback calls hardware_threads_set(1) before re-estimating."
+       + " Further rules: direct-mode clear_cache/threads_end before the single-thread decoder allocates; lz decoder reallocates the dictionary only when the size differs; memusage is reported on LZMA_MEMLIMIT_ERROR.",
   technique="must-pass-through (edge cut) on finite-domain product graphs, table joins, dominance rules",
   ref="4/C09"),
  "C04": dict(
@@ -132,7 +138,8 @@ CLAIMED = {
        "into fixed-size members bounded by constants or proven ranges; path-sensitive interprocedural return-code sets prove "
        "that no exported function can return an internal code and no coder returns LZMA_BUF_ERROR itself (multi-call VLI calls "
        "only with a non-empty buffer); the record allocated for each coder is the one its slot functions cast to; allocation "
-       "results are NULL-tested. Absence of ALL memory errors, arithmetic UB and termination are NOT decided. Also (ALLOCSZ) input-controlled element counts in C1 + n*C2 allocation sizes are clamped so the size cannot wrap; the LOCALOWN (no leak on rejected Block Headers) and PROGRESS (worker publishes progress unconditionally) rules shared with C10/C07.",
+       "results are NULL-tested. Absence of ALL memory errors, arithmetic UB and termination are NOT decided. Also (ALLOCSZ) input-controlled element counts in C1 + n*C2 allocation sizes are clamped so the size cannot wrap; the LOCALOWN (no leak on rejected Block Headers) and PROGRESS (worker publishes progress unconditionally) rules shared with C10/C07."
+       + " Further rules: BUF_ERROR from lzma_index_hash_decode cannot escape stream_decode/stream_decode_mt (call only with *in_pos < in_size).",
   technique="must-availability dataflow on a finite-domain product graph, interprocedural return-code sets with slot typestate, type-agreement joins",
   ref="4/C04"),
  "C11": dict(
@@ -141,7 +148,8 @@ CLAIMED = {
        "allow_buf_error x every lzma_ret the coder can return x progress) and equals the protocol transcribed from base.h "
        "(PROG_ERROR rules, sticky STREAM_END, BUF_ERROR only on the second no-progress call, non-fatal set, fatal -> ISEQ_ERROR); "
        "next/avail/total updates are structurally tied to the positions passed to the coder; per-initialiser action sets equal "
-       "the documented ones. Does NOT decide that no memory outside the buffers is touched. Also (OUTIDX) the bounds fact *out_pos < out_size is available at every out[*out_pos] store of the streaming encoders.",
+       "the documented ones. Does NOT decide that no memory outside the buffers is touched. Also (OUTIDX) the bounds fact *out_pos < out_size is available at every out[*out_pos] store of the streaming encoders."
+       + " Further rules: lzma_index_hash_decode is called only with input available (shared with C04).",
   technique="exhaustive finite-domain abstract interpretation of the wrapper's CFG vs a protocol table; structural def-use rules",
   ref="4/C11"),
  "C16": dict(
@@ -150,7 +158,8 @@ CLAIMED = {
        "for .lz trailing data (mismatch after the first member ends the stream without consuming the byte, FORMAT_ERROR at the "
        "first member, end only with LZMA_FINISH); .lzma header field widths and byte order, picky-only heuristics, EOPM allowed "
        "with known size; auto SEQ_FINISH rules; xz's sniffers use liblzma's magic bytes. Stream Padding rule is decided under "
-       "C05. Decoded content is NOT decided. Also (RESUME) the liveness/save-restore rule on the .lzma/.lz/auto decoders; (INITONCE/INITCONS) the format decoder is initialised once and a re-used decoder starts like a fresh one.",
+       "C05. Decoded content is NOT decided. Also (RESUME) the liveness/save-restore rule on the .lzma/.lz/auto decoders; (INITONCE/INITCONS) the format decoder is initialised once and a re-used decoder starts like a fresh one."
+       + " Further rules: auto decoder goes to SEQ_FINISH only for .lzma; picky mode accepts exactly 2^n and 2^n+2^(n-1) (smear distance set); .lz header bytes are counted in member_size before any non-fatal return; (READFIRST) as in C06.",
   technique="finite-domain abstract interpretation vs spec tables, effect rules and must-pass rules on the product graph, cross-TU table agreement",
   ref="4/C16"),
  "C03": dict(
@@ -159,7 +168,8 @@ CLAIMED = {
        "(LZMA2 dictionary byte, lc/lp/pb byte; 256 values each) against independently written spec tables; rejection "
        "obligations (guard present and its violating edge returns the error code) for reserved bits, VLI rules, Filter IDs, "
        "chain rules and chunk/stream end conditions; every state enumerator of 12 decoder machines has a reachable case. "
-       "Does NOT decide that accepted streams decode to the specified bytes. Also (DICTRESET) lz_decoder_reset() re-initialises every lzma_dict member that decoding modifies; (RESUME) the liveness/save-restore rule of C06 applied to the decoder functions.",
+       "Does NOT decide that accepted streams decode to the specified bytes. Also (DICTRESET) lz_decoder_reset() re-initialises every lzma_dict member that decoding modifies; (RESUME) the liveness/save-restore rule of C06 applied to the decoder functions."
+       + " Further rules: (BLOCK) the block_decode obligations of C05; (RESET) the probability reset rule of C01 on the decoder.",
   technique="finite-domain abstract interpretation of decision expressions vs spec tables, guard obligations, reachability on the product graph",
   ref="4/C03"),
  "C07": dict(
@@ -169,7 +179,8 @@ CLAIMED = {
        "idle thread, quiescent state, owner read); documented-mutex outqueue calls; lock order M->T; every wait re-tests shared "
        "state before unlocking; every write to a wait-predicate field is followed by a signal; exit->join->free; the "
        "CVE-2025-31115 worker rules; pending error only after the queue drained. Found the unlocked progress_in update (fixed). "
-       "These are necessary conditions; absence of all races/deadlocks and output equality are NOT decided. Also (STOPACK) the worker never overwrites THR_EXIT; (QUIESCE/INITCONS) re-initialisation stores to worker-visible members only after threads_end and initialises session members on every path; (ACCT) amounts added to mem_in_use equal the per-thread amounts the worker subtracts and those are main-thread-only; (PROGRESS) partial-output enabling and progress publication are controlled by exactly the documented conditions.",
+       "These are necessary conditions; absence of all races/deadlocks and output equality are NOT decided. Also (STOPACK) the worker never overwrites THR_EXIT; (QUIESCE/INITCONS) re-initialisation stores to worker-visible members only after threads_end and initialises session members on every path; (ACCT) amounts added to mem_in_use equal the per-thread amounts the worker subtracts and those are main-thread-only; (PROGRESS) partial-output enabling and progress publication are controlled by exactly the documented conditions."
+       + " Further rules: worker-wait: the main thread waits only while a worker can still make progress; STOPACK/QUIESCE as in C08.",
   technique="must-lockset dataflow over a finite-domain product graph, protected-field table, must-pass rules",
   ref="4/C07"),
  "C08": dict(
@@ -177,7 +188,8 @@ CLAIMED = {
        "join-before-free) plus must-pass rules of the main loop: Index Records appended only for Blocks that lzma_outq_read "
        "reported finished and with exactly its sizes; FULL_FLUSH complete only with an empty queue; FINISH only after the "
        "Index encoder finished; worker errors reported through worker_error(). Found the early thread_error reset on "
-       "re-initialisation (fixed). Schedule-independence of the output bytes is NOT decided. Also (STOPACK) a stopped worker reports idle only after its last access to coder-mutex data and never overwrites THR_EXIT; (QUIESCE) the init function stores to worker-visible members only after threads_stop/threads_end; (INITCONS) members (threads_free, thr, ...) initialised on some OK paths are initialised on all.",
+       "re-initialisation (fixed). Schedule-independence of the output bytes is NOT decided. Also (STOPACK) a stopped worker reports idle only after its last access to coder-mutex data and never overwrites THR_EXIT; (QUIESCE) the init function stores to worker-visible members only after threads_stop/threads_end; (INITCONS) members (threads_free, thr, ...) initialised on some OK paths are initialised on all."
+       + " Further rules: progress-transfer-atomic: a finished worker's progress moves from the per-thread to the coder totals in one critical section.",
   technique="must-lockset dataflow over a finite-domain product graph, protected-field table, must-pass rules",
   ref="4/C08"),
  "C10": dict(
@@ -186,7 +198,8 @@ CLAIMED = {
        "pointer is left dangling at a return after lzma_free (found the double free in stream_decoder_mt_init, now fixed); every "
        "allocation result is NULL-tested before dereference; public stream inits go through lzma_next_strm_init; no lzma_ret "
        "result is dropped; strong-guarantee APIs store nothing caller-visible before failing. Does NOT decide allocation balance "
-       "for every failing k at run time. Also (INITORD) members released by end() are initialised before any return after next->coder is published; (CACHEKEY) a size key of a cached allocation is updated only after the allocation succeeded; (LOCALOWN) filter options held in function-local arrays are freed or transferred on every path.",
+       "for every failing k at run time. Also (INITORD) members released by end() are initialised before any return after next->coder is published; (CACHEKEY) a size key of a cached allocation is updated only after the allocation succeeded; (LOCALOWN) filter options held in function-local arrays are freed or transferred on every path."
+       + " Further rules: (ALIAS) a freed member is cleared or overwritten before any path can free it again, with the callers that clear it listed.",
   technique="ownership/effect dataflow over clang CFGs, field-coverage joins over record layouts, unused-result rule on resolved callees",
   ref="4/C10"),
  "C13": dict(
@@ -195,7 +208,8 @@ CLAIMED = {
        "updated together by append and combined by cat; append/cat/stream_padding/stream_flags make no caller-visible store on "
        "any path ending in an error return (product-graph effect analysis, restore idiom recognised); every format limit has "
        "its guard; iterator never keeps the reallocated rightmost group; file_info seek target only decreases under a "
-       "dominating bound check. Does NOT decide tree balancing, locate results or size arithmetic. Also (SEEKSTATE) file_info_decode advances coder->sequence after every compound update of its position bookkeeping before it can return LZMA_SEEK_NEEDED; (PROV) Block numbers derive from the Stream's Record count, xz --list reads the Check at total_size - check size.",
+       "dominating bound check. Does NOT decide tree balancing, locate results or size arithmetic. Also (SEEKSTATE) file_info_decode advances coder->sequence after every compound update of its position bookkeeping before it can return LZMA_SEEK_NEEDED; (PROV) Block numbers derive from the Stream's Record count, xz --list reads the Check at total_size - check size."
+       + " Further rules: (APPLY) padding found / bytes used in one call are applied to stream_padding etc. on every non-fatal way out; PROV also: number-base, totals line sums lzma_index_file_size.",
   technique="field-coverage and effect-ordering dataflow on the product graph, dominator-based guard rules, who-may-write",
   ref="4/C13"),
  "C05": dict(
@@ -204,7 +218,8 @@ CLAIMED = {
        "passing edges of the branches that perform each validation the formats demand (magic, all CRC32s, sizes, Index "
        "hash, Backward Size, header/footer flags, Check, .lz footer) no success exit is reachable from the initial state; "
        "padding bytes compared on consumption; LZMA_STREAM_END only from terminal states. A deleted or weakened check is "
-       "reported with the success exit it leaves unguarded. Does NOT decide that payload corruption is caught by the Check. Also: sizes from the Block Header are compared before they are overwritten with the counted sizes; each decoder flag member is derived from the flag constant of the same name; Backward Size is expanded in 64-bit arithmetic.",
+       "reported with the success exit it leaves unguarded. Does NOT decide that payload corruption is caught by the Check. Also: sizes from the Block Header are compared before they are overwritten with the counted sizes; each decoder flag member is derived from the flag constant of the same name; Backward Size is expanded in 64-bit arithmetic."
+       + " Further rules: (ACCUM) counters a decoder state tests accumulate across calls; (INITCONS) a re-used container decoder starts like a fresh one.",
   technique="must-pass-through (edge cut) on a finite-domain path-sensitive product graph with resume edges; interprocedural return-code sets",
   ref="4/C05"),
  "C06": dict(
@@ -212,7 +227,8 @@ CLAIMED = {
        "every resumable coder function that can carry a value across a suspension has a restore/save pair with coder "
        "state (found the eopm_is_valid defect, now fixed); (CRC) running CRC32 of the Index codecs updated on every "
        "non-fatal return after the position advanced; (DET) no nondeterminism source reachable from coder code. "
-       "Does NOT decide output equality across slicings in general. Also (END) resumable encoders return LZMA_STREAM_END only from their final state; (SLICE) size-mismatch errors of the Block decoder only when the other buffer had room; (INITCONS) a session member initialised on some OK paths of an init function is initialised on all; (INITONCE) coder->sequence is advanced before any non-fatal return that follows a nested coder initialisation.",
+       "Does NOT decide output equality across slicings in general. Also (END) resumable encoders return LZMA_STREAM_END only from their final state; (SLICE) size-mismatch errors of the Block decoder only when the other buffer had room; (INITCONS) a session member initialised on some OK paths of an init function is initialised on all; (INITONCE) coder->sequence is advanced before any non-fatal return that follows a nested coder initialisation."
+       + " Further rules: (READFIRST) every member a coding function can read before storing to it is stored by the init function on all OK paths (whole-record, 109 instances); (APPLY) an amount measured in one call is applied to its persistent member on every non-fatal way out; (ACCUM); (PROV) match-finder window geometry keeps after_size + match_len_max bytes ahead; (END/SLICE) Block encoder ends only after the Check was copied.",
   technique="liveness + reaching definitions over resume labels (clang CFG), finite-domain product-graph dataflow, call-graph reachability",
   ref="4/C06"),
 }
